@@ -293,7 +293,7 @@ fn flush_cuts(s: &Scenario) -> Vec<usize> {
                     cuts.push(off)
                 }
             }
-            scen::WOp::Empty => {}
+            scen::WOp::Empty | scen::WOp::Yield => {}
         }
     }
     cuts
